@@ -350,9 +350,74 @@ def validate_shadow():
         argv = pym_argv(f)
         if run(mm.main, argv) != run(sh.mininec.main, argv):
             bad.append(os.path.basename(f))
-    SHADOW_VALIDATION = dict(option_files=len(files), byte_identical=len(files) - len(bad), differing=bad)
+    cont = _container_selftest()
+    SHADOW_VALIDATION = dict(option_files=len(files), byte_identical=len(files) - len(bad), differing=bad, container_ops_compared=cont)
     if bad:
         raise symx.HarnessError('shadow modules and real package print different reports for %s' % bad)
+
+
+def _container_selftest(n_ops=600):
+    """The shadow containers must behave like Python's on concrete keys: random operation sequences on SxDict vs dict and
+    on sx_set vs set (fixed seed), compared after every step."""
+    import random
+    from symx.shadow import SxDict, sx_set
+    rnd = random.Random(20261005)
+    a, b = SxDict(), {}
+    keys = ['k%d' % i for i in range(6)] + [1, 2.5, (1, 2), None]
+    for step in range(n_ops):
+        op = rnd.choice(['set', 'setdefault', 'pop', 'del', 'get', 'update', 'in', 'popitem', 'copy', 'clear'])
+        k, v = rnd.choice(keys), rnd.randrange(100)
+        ra = rb = None
+        try:
+            if op == 'set':
+                a[k] = v
+                b[k] = v
+            elif op == 'setdefault':
+                ra, rb = a.setdefault(k, v), b.setdefault(k, v)
+            elif op == 'pop':
+                ra, rb = a.pop(k, -1), b.pop(k, -1)
+            elif op == 'del':
+                ea = eb = None
+                try:
+                    del a[k]
+                except KeyError:
+                    ea = 'KeyError'
+                try:
+                    del b[k]
+                except KeyError:
+                    eb = 'KeyError'
+                ra, rb = ea, eb
+            elif op == 'get':
+                ra, rb = a.get(k, -2), b.get(k, -2)
+            elif op == 'update':
+                a.update({k: v, 'u': step})
+                b.update({k: v, 'u': step})
+            elif op == 'in':
+                ra, rb = k in a, k in b
+            elif op == 'popitem' and b and rnd.random() < 0.2:
+                ra, rb = a.popitem(), b.popitem()
+            elif op == 'copy':
+                a, b = a.copy(), dict(b)
+            elif op == 'clear' and rnd.random() < 0.05:
+                a.clear()
+                b.clear()
+        except Exception as e:
+            raise symx.HarnessError('shadow dict self-test: %s(%r) raised %r' % (op, k, e))
+        if ra != rb or list(a.items()) != list(b.items()) or len(a) != len(b) or list(a) != list(b) or list(a.values()) != list(b.values()):
+            raise symx.HarnessError('shadow dict differs from dict after %s(%r): %r vs %r (results %r / %r)' % (op, k, list(a.items()), list(b.items()), ra, rb))
+    sa, sb = sx_set(), set()
+    for step in range(n_ops // 3):
+        op = rnd.choice(['add', 'discard', 'in', 'len'])
+        k = rnd.randrange(8)
+        if op == 'add':
+            sa.add(k)
+            sb.add(k)
+        elif op == 'discard':
+            sa.discard(k)
+            sb.discard(k)
+        if (k in sa) != (k in sb) or len(sa) != len(sb) or sorted(sa) != sorted(sb) or list(sa) != list(sb):
+            raise symx.HarnessError('shadow set differs from set after %s(%r)' % (op, k))
+    return n_ops + n_ops // 3
 
 
 def run_check(pid, main):
